@@ -34,6 +34,18 @@ def generate(lib, extra_argv=()):
     return rr
 
 
+def reject_mech(rr):
+    """Mechanism key + text for a Shroud run that failed on an admitted description."""
+    e = rr.get("exc") or {}
+    if e:
+        return "%s:%s" % (e.get("type"), e.get("where")), "%s %s" % (e.get("type"), (e.get("msg") or "")[:600])
+    text = (rr.get("exit_msg") or "") + "\n" + (rr.get("stdout") or "") + "\n" + (rr.get("stderr") or "")
+    lines = [ln.strip() for ln in text.split("\n") if ln.strip() and not ln.startswith(("Wrote ", "Close "))]
+    err = next((ln for ln in reversed(lines) if re.search(r"rror|llegal|nknown|must|cannot|not ", ln)), lines[-1] if lines else "exit %s" % rr.get("exit"))
+    key = re.sub(r"\d+", "N", re.sub(r"\b[a-z]+\d+\w*\b", "X", err))[:60]
+    return "exit:%s" % key, "exit %s: %s" % (rr.get("exit"), "\n".join(lines[-6:])[:800])
+
+
 def first_error(se):
     for ln in se.split("\n"):
         m = re.search(r"([\w./-]+):(\d+)[:.](?:\d+:)?\s*(?:fatal )?[Ee]rror:?\s*(.*)", ln)
